@@ -12,7 +12,8 @@ RULE = ("target files of 1..40 lines: valid entries in several spellings (key or
         "commands tcp / udp / socks-docker-elastic / icmp; modes pairs, addresses x 1..3 port ranges, port-less; source regular "
         "file, stdin, missing file; --exclude on/off; ARP cache on/off with and without gateway MAC; plus request streams "
         "that already carry errors through filter/cache in all four stackings; bursts of 230..380 bad entries in a row through the "
-        "real GenericEngine and PacketEngine with an error consumer that starts 300..500 ms late; non-trivial = at least one bad entry or "
+        "real GenericEngine and PacketEngine with an error consumer that starts 300..500 ms late; 120..260 bad entries at the END "
+        "of the file through the real startScanEngine with an exit delay of 0..5 ms; non-trivial = at least one bad entry or "
         "error request reached; distinct by case seed")
 
 CODES = {1: "error return of GenerateRequests differs from the model", 2: "request sequence differs from the model",
@@ -250,10 +251,15 @@ def nontrivial(o):
 def burst_spec(o):
     """every bad entry exactly one error record with its cause, every valid entry one probe - however late the
     consumer of the error stream starts"""
-    eng = {"generic": "socks/docker/elastic engine (NewScanEngine, 4 workers)", "packet": "tcp packet engine (NewPacketEngine, real sender)"}[o["engine"]]
     nbad = sum(o["nbad"].values())
-    head = "pairs file with %d valid and %d bad entries in a row through the %s, error consumer %d ms late" % (
-        o["nvalid"], nbad, eng, o["late_ms"])
+    if o["engine"] == "start":
+        head = ("pairs file with %d valid entries followed by %d bad entries at the END through the real startScanEngine of the "
+                "application scans (4 workers, exit delay %g ms, logger 0.1 ms per record)" % (o["nvalid"], nbad, o["exit_delay_us"] / 1000.0))
+    else:
+        eng = {"generic": "socks/docker/elastic engine (NewScanEngine, 4 workers)",
+               "packet": "tcp packet engine (NewPacketEngine, real sender)"}[o["engine"]]
+        head = "pairs file with %d valid and %d bad entries in a row through the %s, error consumer %d ms late" % (
+            o["nvalid"], nbad, eng, o["late_ms"])
     if not o["done"]:
         return head + ": the engine does not finish"
     for cause, n in sorted(o["nbad"].items()):
@@ -293,7 +299,8 @@ def run(ctx):
         cls = "burst:" + o["engine"]
         ctx.count(cls, ("burst", o["case_seed"]), nontrivial=True,
                   sample={"kind": "burst", "engine": o["engine"], "bad_entries": o["nbad"], "valid_entries": o["nvalid"],
-                          "consumer_late_ms": o["late_ms"], "error_records": o["errors"], "probes": o["probes"]})
+                          "consumer_late_ms": o["late_ms"], "exit_delay_us": o.get("exit_delay_us"), "error_records": o["errors"],
+                          "probes": o["probes"]})
         why = burst_spec(o)
         if why:
             per_class[cls] = per_class.get(cls, 0) + 1
